@@ -49,9 +49,9 @@ MUTANTS = [
          edits=[(VALUES, "                            bits >>= 1\n", "                            pass\n")]),
     dict(id="c17-accessor-nomask", props=["C17"], rule="M2",
          edits=[(VALUES, "bits = obj._value & self._mask", "bits = obj._value")]),
-    dict(id="c17-row-inverted", props=["C17"], rule="M2", names="row element",
+    dict(id="c17-row-inverted", props=["C17"], rule="M2", names="rows",
          edits=[(PRETTY, '            "." if m == "0" else v for m, v in zip(mask_padded, value_padded)', '            "." if m == "1" else v for m, v in zip(mask_padded, value_padded)')]),
-    dict(id="c17-row-padding", props=["C17"], rule="M2", names="padding",
+    dict(id="c17-row-padding", props=["C17"], rule="M2", names="rows",
          edits=[(PRETTY, "        bit_size = size * 8\n", "        bit_size = size * 4\n")]),
     dict(id="c17-row-skip", props=["C17"], rule="M2",
          edits=[(PRETTY, "        mask = attribute._value\n", "        mask = attribute._value\n        if mask == 1:\n            continue\n")]),
